@@ -16,9 +16,9 @@ EXPLANATION = (
     "so in Drop for IoUring the munmap whose address derives from completion_queue.ring_ptr must be control-dependent on a comparison of the two ring pointers (or the feature bit) - an unconditional third munmap releases the same range twice; "
     "C18.2 sizes agree: the two ring unmaps use the ring_size fields that set-up stored from the very sizes it mapped, the SQE array is unmapped with ring_entries * sqe_size where sqe_size uses the same SQE128 test as set-up, and close(fd) happens once, after the unmaps; "
     "C18.3 set-up failure edges release what was acquired (checked under C12.1/C12.2); "
-    "C18.4 every SQE constructor is well-formed (sibling agreement over all new_* functions): opcode is the IoUringOp variant the name says, user_data and flags come from the parameters of those names, fd from the descriptor/dir-fd parameter (AT_FDCWD for None); "
+    "C18.4 every SQE constructor is well-formed (sibling agreement over all new_* functions): opcode is the IoUringOp variant the name says, user_data and flags come from the parameters of those names, fd from the descriptor/dir-fd parameter (AT_FDCWD for None), every parameter reaches the entry and no field carries the caller's argument on some paths and a constant on others; "
     "C18.5 io_uring_enter / io_uring_register_* pass the ring descriptor and their arguments through to the system call and classify the result (C09). "
-    "C18.6 a submission slot is handed out only while (tail + 1) - kernel_head <= ring_entries with the head the kernel publishes on every path, so no queued operation is overwritten before it was consumed, and the completion read is entries + ((kernel_head & mask) << shift); "
+    "C18.6 a submission slot is handed out only while (tail + 1) - kernel_head <= ring_entries with the head the kernel publishes on every path, so no queued operation is overwritten before it was consumed, flush leaves the tail unpublished only when head == tail, and the completion read is entries + ((kernel_head & mask) << shift); "
     "NOT decided: that results equal the direct system call's, one completion per submission (kernel behaviour).")
 ASSUMPTIONS = ["params.sq_entries == ring_entries read from the mapped ring (the kernel's two reports of one number)", "IORING_FEAT_SINGLE_MMAP semantics"]
 
